@@ -89,7 +89,12 @@ def walk (F : FloatOps) : Nat → Bytes → String
       | .panic => "PANIC"
     else if t = tMessage ∨ t = tBigMessage then
       match openMessageErr v with
-      | .ok m => "{" ++ walkFields F fuel m (tagsSorted m m.fields 0 none) m.fields 0 ++ "}"
+      | .ok m =>
+        let sorted := tagsSorted m m.fields 0 none
+        "{" ++ walkFields F fuel m sorted m.fields 0 ++ "}" ++
+          (if sorted then
+            ghostProbe m 0 ++ ghostProbe m 1 ++ ghostProbe m 255 ++ ghostProbe m 256 ++ ghostProbe m 65535
+           else "")
       | .err e _ => "!M" ++ errName e
       | .panic => "PANIC"
     else "?" ++ toString t.toNat
